@@ -215,14 +215,54 @@ fn case_lens(c: &J, peers: &Peers) -> J {
     let path: Vec<ast::Lens> = serde_json::from_value(c["path"].clone()).unwrap_or_default();
     let kv = c.get("kvar").map(|k| proj::untag(k, peers));
     let a = peers.id_of("A");
-    let lens_txt = ast::render_opnd(&ast::varl("x", path), peers);
+    let carrier = c.get("carrier").and_then(|x| x.as_str()).unwrap_or("scalar");
+    // values handed out by the "val" service, by function name
+    let mut vals: std::collections::BTreeMap<String, J> = std::collections::BTreeMap::new();
+    vals.insert("k".into(), kv.clone().unwrap_or(J::Null));
+    let mut setup = String::new();
+    let mut closing = 0;
+    let subject = match carrier {
+        "canon" => {
+            // the elements of the array become the values of a stream, canonicalized
+            for (i, e) in v.as_array().cloned().unwrap_or_default().into_iter().enumerate() {
+                vals.insert(format!("e{i}"), e);
+                setup += &format!(r#"(seq (seq (call "{a}" ("val" "e{i}") [] e{i}) (ap e{i} $s)) "#);
+                closing += 1;
+            }
+            setup += &format!(r#"(seq (canon "{a}" $s #$c) "#);
+            closing += 1;
+            "#$c"
+        }
+        "map" => {
+            // the object {key: [values]} becomes a stream map with one pair per value, canonicalized
+            for (k, arr) in v.as_object().cloned().unwrap_or_default().into_iter() {
+                let key = if !k.is_empty() && k.chars().all(|ch| ch.is_ascii_digit()) { k.clone() } else { format!("\"{k}\"") };
+                for (j, e) in arr.as_array().cloned().unwrap_or_default().into_iter().enumerate() {
+                    vals.insert(format!("m{k}x{j}"), e);
+                    setup += &format!(r#"(seq (seq (call "{a}" ("val" "m{k}x{j}") [] m{k}x{j}) (ap ({key} m{k}x{j}) %m)) "#);
+                    closing += 1;
+                }
+            }
+            setup += &format!(r#"(seq (canon "{a}" %m #%c) "#);
+            closing += 1;
+            "#%c"
+        }
+        _ => {
+            vals.insert("x".into(), v.clone());
+            setup += &format!(r#"(seq (call "{a}" ("val" "x") [] x) "#);
+            closing += 1;
+            "x"
+        }
+    };
+    let lens_txt = ast::render_opnd(&ast::varl(subject, path), peers);
     let script = format!(
-        r#"(seq (seq (call "{a}" ("val" "x") [] x) (call "{a}" ("val" "k") [] k)) (xor (call "{a}" ("out" "ok") [{lens_txt}]) (call "{a}" ("out" "err") [:error:.$.error_code])))"#
+        r#"(seq (call "{a}" ("val" "k") [] k) {setup}(xor (call "{a}" ("out" "ok") [{lens_txt}]) (call "{a}" ("out" "err") [:error:.$.error_code])){close})"#,
+        close = ")".repeat(closing)
     );
     let mut prev: Vec<u8> = vec![];
     let mut results = CallResults::new();
     let mut observed = json!({"branch": "none", "arg": proj::special("?", ""), "code": 0});
-    for _round in 0..6 {
+    for _round in 0..24 {
         let o = net::run_raw(peers, &script, &prev, &[], "A", "A", "particle-1", &Limits::default(), &results);
         if o.died.is_some() {
             return json!({"branch": "died", "arg": proj::special("?", ""), "code": -1, "run_code": -1});
@@ -236,8 +276,7 @@ fn case_lens(c: &J, peers: &Peers) -> J {
         }
         for (id, r) in reqs.iter() {
             let res = match (r.srv.as_str(), r.func.as_str()) {
-                ("val", "x") => v.clone(),
-                ("val", "k") => kv.clone().unwrap_or(J::Null),
+                ("val", name) => vals.get(name).cloned().unwrap_or(J::Null),
                 ("out", "ok") => {
                     observed["branch"] = json!("ok");
                     observed["arg"] = proj::tag(r.args.first().unwrap_or(&J::Null), peers);
